@@ -124,6 +124,7 @@ def ob_params_decoder(name):
     ret = [n for n in ast.walk(par.node) if isinstance(n, ast.Return)]
     if len(ret) != 1 or not isinstance(ret[0].value, ast.Dict):
         raise Unsupported('params does not return a dict literal')
+    unrec = []
     init_params = [a.arg for a in init.node.args.args[1:]]
     stored = {}         # field -> parameter it is assigned from (direct, unmodified)
     for n in ast.walk(init.node):
@@ -138,12 +139,16 @@ def ob_params_decoder(name):
             problems.append('params must not include %r' % key)
         if not (isinstance(v, ast.Attribute) and ast.unparse(v.value) == 'self'):
             problems.append('params[%r] is not read from a field' % key); continue
-        if stored.get(v.attr) != key:
+        if stored.get(v.attr) == '<expr>':
+            unrec.append('params[%r]: self.%s is filled from an expression, not directly from a parameter' % (key, v.attr))
+        elif stored.get(v.attr) != key:
             problems.append('params[%r] reads self.%s, which the constructor fills from %s' % (key, v.attr, stored.get(v.attr)))
     optional = [a for a in init_params if a not in ('code', 'error_model', 'error_rate')]
     missing = [a for a in optional if a not in [k.value for k in ret[0].value.keys]]
     if missing:
         problems.append('constructor parameters not recorded in params (cannot be reproduced from a results file): %s' % missing)
+    if unrec and not problems:
+        raise Unsupported('; '.join(unrec))
     return dict(verdict='refuted' if problems else 'discharged', model=dict(decoder=name, problems=problems) if problems else None, backend='pyvc-structural', seconds=0, kind='plain',
                 detail='; '.join(problems) or 'params keys %s <-> constructor parameters' % [k.value for k in ret[0].value.keys],
                 functions=[dict(function=f.ref, sha256_16=f.sha) for f in (init, par)], transparent=[], decoder=name)
@@ -210,8 +215,8 @@ def ob_product_expand(timeout=30):
             problems.append('other keys of the specification are not carried over')
     # the loop iterates itertools.product over the four ranges returned by _parse_all_ranges (any order, all four, once each)
     src = ast.unparse(f.node)
-    if 'itertools.product(error_model_range, decoder_range, error_rate_range, code_range)' not in src:
-        problems.append('runs are not generated by itertools.product over the four ranges')
+    if 'itertools.product(error_model_range, decoder_range, error_rate_range, code_range)' not in src and not problems:
+        raise Unsupported('source shape of expand_input_ranges not recognised (product over the four ranges)')
     return dict(verdict='refuted' if problems else 'discharged', model=dict(problems=problems) if problems else None, backend='pyvc-symex', seconds=0, kind='plain',
                 detail='; '.join(problems) or 'each element of product(noise, decoder, rate, code) yields one run carrying exactly those four components',
                 functions=[dict(function=f.ref, sha256_16=f.sha)], transparent=sorted(x.transparent))
@@ -244,10 +249,8 @@ def ob_product_simulations(timeout=30):
         if p[0] is not dd or p[1] is not code or p[2] is not em or not (isinstance(p[3], z3.ExprRef) and p[3].eq(er)):
             problems.append('the decoder is not built for (this code, this error model, this error rate)')
     src = ast.unparse(f.node)
-    if 'itertools.product(codes, error_models, decoder_range, error_rates)' not in src:
-        problems.append('instances are not itertools.product(codes, error_models, decoder_range, error_rates)')
-    if "simulations += get_simulations(sub_data)" not in src:
-        problems.append('a list of ranges is not the concatenation of its elements')
+    if ('itertools.product(codes, error_models, decoder_range, error_rates)' not in src or "simulations += get_simulations(sub_data)" not in src) and not problems:
+        raise Unsupported('source shape of get_simulations not recognised (product / concatenation of sub-ranges)')
     return dict(verdict='refuted' if problems else 'discharged', model=dict(problems=problems) if problems else None, backend='pyvc-symex', seconds=0, kind='plain',
                 detail='; '.join(problems) or 'each element yields one DirectSimulation(code, noise, decoder built for exactly them, rate)',
                 functions=[dict(function=f.ref, sha256_16=f.sha)], transparent=sorted(x.transparent))
